@@ -18,7 +18,8 @@ EXPLANATION = (
     "OS when it returns; (O4) every streaming writer writes exactly the block of the current read_plan iteration "
     "inside the loop (time order, nothing accumulated across iterations) and single-shot writers write once after the "
     "header; (O5) the in-place header editor is reachable only from the spp_header app; (O6) the reader derives the "
-    "sample count by floor division of the data length, so a torn trailing sample is ignored. Together these give: "
+    "sample count by floor division of the data length, so a torn trailing sample is ignored; (O7) what each iteration writes is "
+    "exactly the block just computed, a whole number of output samples (C07's written-slice rules). Together these give: "
     "after every write the file is header + prefix of the final data section."
 )
 TECHNIQUE = "static analysis: who-may-call + CFG dominance (must-pass-through) + effect ordering over the call graph"
@@ -296,6 +297,15 @@ def run(prog: Program, res: Result, tier: str) -> None:
                 res.bad("O4b", f, call, "a file is written outside Header.prep_outfile / FileWriter by a function that is not "
                         "in the enumerated list of non-SIGPROC writers", key=f"{f.ident}:{norm(call.func)}")
 
+    # ---- O7 each write appends whole samples of the block just computed (shared with C07.R5) ------------------
+    from .c07 import run as run_c07
+    scratch = Result("C07", prog)
+    run_c07(prog, scratch, tier)
+    for o in scratch.obligations:
+        if o.rule == "C07.R5" and (o.key.endswith(":written") or o.key.endswith(":scratch") or o.key.endswith(":selection")):
+            res.add("O7", None, None, o.ok, f"[{o.rule}] {o.detail}", construct=o.construct, key=f"{o.rule}:{o.key}", where=o.where)
+            res.obligations[-1].file, res.obligations[-1].line = o.file, o.line
+
     # ---- O5 no patching ------------------------------------------------------------------
     prog.func(SIGPROC, "edit_header")
     n5 = 0
@@ -334,6 +344,7 @@ def run(prog: Program, res: Result, tier: str) -> None:
     res.floor("O4", 12)
     res.floor("O2c", 12)
     res.floor("O5", 1)
+    res.floor("O7", 9)
 
 
 def _write_mode(a: ast.AST) -> bool:
